@@ -91,8 +91,21 @@ pub fn print_types<W: std::fmt::Write>(w: &mut W, ast: &Ast, derive: &str) -> Re
                     writeln!(w, "{},", NonDigitName(SafeName(c.as_str())))?;
                 }
 
-                if v.default.is_some() {
-                    writeln!(w, "default,")?;
+                // A default case that carries data has the same shape as any
+                // other data-carrying case.
+                if let Some(ref case) = v.default {
+                    write!(w, "default(")?;
+
+                    match case.field_value.unwrap_array() {
+                        BasicType::Opaque => write!(w, "T")?,
+                        BasicType::String => write!(w, "String")?,
+                        BasicType::Ident(i) if ast.generics().contains(i.as_ref()) => {
+                            write!(w, "{}<T>", i)?
+                        }
+                        _ => write!(w, "{}", case.field_value)?,
+                    }
+
+                    writeln!(w, "),")?;
                 }
 
                 writeln!(w, "}}")?;
